@@ -61,7 +61,20 @@ def main():
     from torchsnapshot import Snapshot, StateDict
     state = {f"w{i}": (torch.arange(n, dtype=torch.float32) * 0.5 + i) for i, n in enumerate(cfg["elems"])}
     res = {}
-    resource.setrlimit(resource.RLIMIT_FSIZE, (cfg["limit"], resource.RLIM_INFINITY))
+    if cfg.get("fault"):
+        # a storage fault injected into the REAL plugin (so that the real StoragePlugin.sync_write / scheduler paths run):
+        # "metadata" = the .snapshot_metadata write raises, "payload" = every payload write raises
+        from torchsnapshot.storage_plugins.fs import FSStoragePlugin
+        orig_write = FSStoragePlugin.write
+
+        async def write(self, write_io):
+            is_meta = write_io.path.endswith(".snapshot_metadata")
+            if (cfg["fault"] == "metadata") == is_meta:
+                raise OSError(28, "No space left on device (injected)")
+            return await orig_write(self, write_io)
+        FSStoragePlugin.write = write
+    if cfg.get("limit"):
+        resource.setrlimit(resource.RLIMIT_FSIZE, (cfg["limit"], resource.RLIM_INFINITY))
     for mode in ("sync", "async"):
         path = os.path.join(d, "snap_" + mode)
         app = {"m": StateDict(**state)}
